@@ -947,4 +947,290 @@ theorem run_calcCounter (img : Image) (s : State) (pc : Nat) (vars : List (LoopV
       rw [hoth l h1, getLV_setLV_other _ _ _ _ h2, getLV_setLV_other _ _ _ _ h1]
 
 
+/-! ## `repeat with v from a to b` -/
+
+theorem loopCode_parts {img : Image} {P0 : Nat} {pre test inner : List Instr}
+    (hc : CodeAt img P0 (loopCode pre test inner)) :
+    img.code[P0]? = some .loop ∧ CodeAt img (P0 + 1) pre ∧
+    CodeAt img (P0 + 1 + pre.length) (loopTail test inner) ∧
+    (loopCode pre test inner).length = 1 + pre.length + (loopTail test inner).length := by
+  rw [loopCode_eq] at hc
+  refine ⟨?_, ?_, ?_, ?_⟩
+  · have := hc.left.left.head; simpa using this
+  · have := hc.left.right; simpa using this
+  · have := hc.right
+    have e : P0 + ([Instr.loop] ++ pre).length = P0 + 1 + pre.length := by simp; omega
+    rw [e] at this
+    exact this
+  · rw [loopCode_eq]; simp; omega
+
+theorem run_loop_instr (img : Image) (s : State) (P0 : Nat) (hs : s.status = .running)
+    (hpc : s.pc = (P0 : Int)) (hL : img.code[P0]? = some .loop) : run img 1 s = afterLoop s := by
+  rw [run_one _ _ hs, step_loop img s P0 hs hpc hL]
+  simp [afterLoop, hpc]
+
+/-- **a whole counted loop with index variable**: `LOOP`, any prologue that ends at the loop
+top in `s1` with numbers in the hidden `counter` and `incr` and a number in `v`, then the
+passes. -/
+theorem var_loop_whole (img : Image) (P0 : Nat) (pre b : List Instr) (v : String)
+    (hc : CodeAt img P0 (loopCode pre counterTest (b ++ loopPost (some v))))
+    (s s1 : State) (hs : s.status = .running) (hpc : s.pc = (P0 : Int))
+    (hpre : ∃ k, run img k (afterLoop s) = s1) (hr1 : s1.status = .running)
+    (hpc1 : s1.pc = ((P0 + 1 + pre.length : Nat) : Int)) (hev1 : s1.eval = s.eval)
+    (vars : List (LoopVar × Val)) (rest1 : List Frame) (c : Rat) (fl : Bool) (d : Rat) (fd : Bool)
+    (x : Rat) (fx : Bool)
+    (hst1 : s1.stack = .loop vars s.eval.length :: rest1) (hn : Num (getLV vars .counter) c fl)
+    (hd : Num (getLV vars .incr) d fd) (hx : Num (s1.getVariable v) x fx)
+    (ts : List State) (s' : State)
+    (hp : Passes (BodyRunV img b v) (enterBody (P0 + 1 + pre.length + 5)) (varPost (P0 + 1 + pre.length) v)
+      s1 ts s')
+    (hlen : ts.length = passes c) :
+    (∃ k, run img k s =
+      exitLoop (P0 + (loopCode pre counterTest (b ++ loopPost (some v))).length) s') ∧
+    (exitLoop (P0 + (loopCode pre counterTest (b ++ loopPost (some v))).length) s').eval = s.eval ∧
+    (∃ vars' rest', s'.stack = .loop vars' s.eval.length :: rest') ∧
+    (∀ k (hk : k < ts.length), ts[k].getVariable v = addN (s1.getVariable v) (getLV vars .incr) k) ∧
+    s'.getVariable v = addN (s1.getVariable v) (getLV vars .incr) ts.length := by
+  obtain ⟨hL, _, hTail, hlen2⟩ := loopCode_parts hc
+  have h1 := run_loop_instr img s P0 hs hpc hL
+  obtain ⟨k1, hk1⟩ := hpre
+  obtain ⟨⟨k2, hk2⟩, hev2, hs2, hfr2, hvals, hfin⟩ := counted_var_loop_chain img (P0 + 1 + pre.length) b v
+    hTail s1 ts s' hp vars s.eval.length rest1 c fl x fx d fd hr1 hpc1 hst1 (by rw [hev1]) hn hd hx hlen
+  refine ⟨⟨1 + k1 + k2, ?_⟩, ?_, hfr2, hvals, hfin⟩
+  · rw [run_add, run_add, h1, hk1, hk2, hlen2]
+    congr 1; omega
+  · simp only [exitLoop]; rw [hev2, hev1]
+
+
+theorem indexVarRange_lit_with (v : String) (av bv : Val) :
+    indexVarRange v (.lit av) (.lit bv) true =
+      [Instr.moveq av (.loopVar .first), .moveq bv (.loopVar .last),
+       .move (.loopVar .first) (.var v)] ++ calcCounter := by
+  simp [indexVarRange, genRv]
+
+/-- what the first three instructions of a `with … from a to b` prologue do: `first := a`,
+`last := b`, `v := first` -/
+theorem run_bounds_lit (img : Image) (s0 : State) (pc h : Nat) (rest : List Frame) (v : String)
+    (av bv : Val) (vars0 : List (LoopVar × Val))
+    (hs : s0.status = .running) (hpc : s0.pc = (pc : Int))
+    (hc : CodeAt img pc [Instr.moveq av (.loopVar .first), .moveq bv (.loopVar .last),
+       .move (.loopVar .first) (.var v)])
+    (hst : s0.stack = .loop vars0 h :: rest) (hconst : s0.constants.get v = none)
+    (hscope : ScopeOk s0.stack) :
+    ∃ s3 rest1, run img 3 s0 = s3 ∧ s3.status = .running ∧ s3.pc = (pc : Int) + 3 ∧ s3.eval = s0.eval ∧
+      s3.stack = .loop (setLV (setLV vars0 .first av) .last bv) h :: rest1 ∧
+      s3.getVariable v = av ∧ s3.constants = s0.constants ∧ ScopeOk s3.stack ∧ s3.regs = s0.regs := by
+  let v1 := setLV vars0 .first av
+  let v2 := setLV v1 .last bv
+  let sa : State := { s0 with pc := (pc : Int) + 1, stack := .loop v1 h :: rest }
+  let sb : State := { s0 with pc := (pc : Int) + 2, stack := .loop v2 h :: rest }
+  have ha : run img 1 s0 = sa := run_moveq_lv img s0 pc .first av vars0 h rest hs hpc (hc.get 0 (by simp)) hst
+  have hb : run img 1 sa = sb := by
+    rw [run_moveq_lv img sa (pc + 1) .last bv v1 h rest (by exact hs) (by simp [sa]) (hc.get 1 (by simp)) rfl]
+    apply State.ext' <;> first | rfl | (simp [sa, sb]; omega)
+  have hgf : getLV v2 .first = av := by
+    rw [getLV_setLV_other _ _ _ _ (by simp), getLV_setLV_self]
+  have hcm : run img 1 sb = { sb.putVariable v av with pc := (pc : Int) + 3 } := by
+    rw [run_move_lv_var img sb (pc + 2) .first v v2 h rest (by exact hs) (by simp [sb]) (hc.get 2 (by simp)) rfl,
+      hgf]
+    apply State.ext' <;> first | rfl | (simp; omega)
+  obtain ⟨hget, hsc, hcon, htop⟩ := putVariable_get sb v av hconst (by rw [hst] at hscope; exact hscope.retop)
+  obtain ⟨rest1, hst3⟩ := htop v2 h rest rfl
+  refine ⟨{ sb.putVariable v av with pc := (pc : Int) + 3 }, rest1, ?_, ?_, rfl, ?_, hst3, hget, hcon, hsc, ?_⟩
+  · exact run_trans ha (run_trans hb hcm)
+  · simpa [putVariable_status] using hs
+  · simp only []; rw [putVariable_eval]
+  · show (sb.putVariable v av).regs = s0.regs
+    unfold State.putVariable
+    repeat' split
+    all_goals rfl
+
+/-- **range prologue.**  `Gen.indexVarRange v a b true` with literal bounds: afterwards `v`
+denotes `a`, the hidden counter is `|b − a| + 1`, `incr` is `+1` (`a ≤ b`) or `−1`. -/
+theorem range_prologue (img : Image) (s0 : State) (pc h : Nat) (rest : List Frame) (v : String)
+    (av bv : Val) (x y : Rat) (fx fy : Bool)
+    (hs : s0.status = .running) (hpc : s0.pc = (pc : Int))
+    (hc : CodeAt img pc (indexVarRange v (.lit av) (.lit bv) true))
+    (hst : s0.stack = .loop [] h :: rest) (hconst : s0.constants.get v = none)
+    (hscope : ScopeOk s0.stack) (hav : Num av x fx) (hbv : Num bv y fy) :
+    ∃ k s1 vars rest1, run img k s0 = s1 ∧ s1.status = .running ∧
+      s1.pc = (pc : Int) + (indexVarRange v (.lit av) (.lit bv) true).length ∧ s1.eval = s0.eval ∧
+      s1.stack = .loop vars h :: rest1 ∧
+      Num (getLV vars .counter) ((if y - x < 0 then -(y - x) else y - x) + 1) (fy || fx) ∧
+      getLV vars .incr = .int (if y - x < 0 then -1 else 1) ∧
+      s1.getVariable v = av ∧ s1.constants = s0.constants ∧ ScopeOk s1.stack := by
+  rw [indexVarRange_lit_with] at hc ⊢
+  obtain ⟨s3, rest1, hr3, hs3, hpc3, hev3, hst3, hgv3, hcon3, hsc3, _⟩ :=
+    run_bounds_lit img s0 pc h rest v av bv [] hs hpc hc.left hst hconst hscope
+  have hf : Num (getLV (setLV (setLV [] .first av) .last bv) .first) x fx := by
+    rw [getLV_setLV_other _ _ _ _ (by simp), getLV_setLV_self]; exact hav
+  have hl : Num (getLV (setLV (setLV [] .first av) .last bv) .last) y fy := by
+    rw [getLV_setLV_self]; exact hbv
+  obtain ⟨k, vars', hrun, hcnt, hinc, _⟩ := run_calcCounter img s3 (pc + 3) _ h rest1 x y fx fy hs3
+    (by rw [hpc3]; simp) (by have := hc.right; simpa using this) hst3 hf hl
+  refine ⟨3 + k, _, vars', rest1, run_trans hr3 hrun, hs3, ?_, hev3, rfl, hcnt, hinc, ?_, hcon3, ?_⟩
+  · simp [calcCounter, testOp, incCounter]; omega
+  · rw [← hgv3]
+    exact getVariable_retop s3 _ _ vars' h h rest1 v hst3 rfl rfl rfl
+  · rw [hst3] at hsc3; exact hsc3.retop
+
+
+theorem assembled_length (pre b post : List Instr) :
+    (unG (assembleLoop pre counterTest [] (ins b) post)).length = pre.length + b.length + post.length + 8 := by
+  rw [assembled_counted, loopCode_eq]
+  simp [loopTail, counterTest, testOp]; omega
+
+/-- the universal form of `BodyRunV` -/
+def BodyOkV (img : Image) (b : List Instr) (v : String) : Prop :=
+  ∀ t : State, t.status = .running → (∃ pc : Nat, t.pc = (pc : Int) ∧ CodeAt img pc b) →
+    (∃ vars h rest, t.stack = .loop vars h :: rest) → t.constants.get v = none → ScopeOk t.stack →
+    ∃ u, BodyRunV img b v t u
+
+theorem var_chain_exists (img : Image) (top : Nat) (b : List Instr) (v : String)
+    (hB : CodeAt img (top + 5) b) (hok : BodyOkV img b v) :
+    ∀ (p : Nat) (s : State) (vars : List (LoopVar × Val)) (h : Nat) (rest : List Frame),
+      s.status = .running → s.stack = .loop vars h :: rest → s.constants.get v = none →
+      ScopeOk s.stack →
+      ∃ ts s', Passes (BodyRunV img b v) (enterBody (top + 5)) (varPost top v) s ts s' ∧ ts.length = p := by
+  intro p
+  induction p with
+  | zero => intro s vars h rest _ _ _ _; exact ⟨[], s, .done s, rfl⟩
+  | succ p ih =>
+    intro s vars h rest hs hst hcon hsc
+    obtain ⟨u, hu⟩ := hok (enterBody (top + 5) s) (by simpa [enterBody] using hs)
+      ⟨top + 5, by simp [enterBody], hB⟩ ⟨vars, h, rest, by simpa [enterBody] using hst⟩
+      (by simpa [enterBody] using hcon) (by simpa [enterBody] using hsc)
+    obtain ⟨rest', hust⟩ := hu.frame vars h rest (by simpa [enterBody] using hst)
+    have hst1 : ({ u with stack := mapTop decCounter u.stack } : State).stack =
+        .loop (decCounter vars) h :: rest' := by simp [hust, mapTop]
+    obtain ⟨_, hsc2, hcon2, htop2⟩ := putVariable_get ({ u with stack := mapTop decCounter u.stack } : State) v
+      (addVal (u.getVariable v) (u.getLoopVar .incr)) hu.const
+      (by rw [hst1]; have := hu.scope; rw [hust] at this; exact this.retop)
+    obtain ⟨rest2, hst2⟩ := htop2 _ h rest' hst1
+    obtain ⟨ts, s', hp, hl⟩ := ih (varPost top v u) (decCounter vars) h rest2
+      (by simpa [varPost, putVariable_status] using hu.running) (by exact hst2)
+      (by show (State.putVariable _ v _).constants.get v = none; rw [hcon2]; exact hu.const)
+      (by exact hsc2)
+    exact ⟨_ :: ts, s', .pass hu hp, by simp [hl]⟩
+
+/-- **range_loop (chain form).**  `repeat with v from a to b` with literal numeric bounds
+`a`, `b` (values `x`, `y`) and a body that does not assign `v`: started at `LOOP` in a state
+where `v` is not a macro and names resolve (`ScopeOk`), the prologue ends at the loop top in a
+state `s1` where `v` denotes `a`; if the body behaves (`BodyRunV`) in each of the
+`passes (|y − x| + 1)` passes — for integers: `|b − a| + 1` — then the VM reaches the
+instruction after `END_LOOP` with the loop frame popped and the evaluation stack restored, and
+at the start of pass `k` (0-based) `v` denotes `a` with `+1` (if `x ≤ y`) or `−1` (if `y < x`)
+added `k` times. -/
+theorem C04_range_loop_chain (img : Image) (P0 : Nat) (b : List Instr) (v : String) (av bv : Val)
+    (x y : Rat) (fx fy : Bool) (hav : Num av x fx) (hbv : Num bv y fy)
+    (hc : CodeAt img P0 (unG (assembleLoop (indexVarRange v (.lit av) (.lit bv) true) counterTest []
+      (ins b) (loopPost (some v)))))
+    (s : State) (hs : s.status = .running) (hpc : s.pc = (P0 : Int))
+    (hconst : s.constants.get v = none) (hscope : ScopeOk s.stack) :
+    ∃ s1 vars rest1, (∃ k, run img k s = s1) ∧ s1.status = .running ∧
+      s1.stack = .loop vars s.eval.length :: rest1 ∧ s1.getVariable v = av ∧
+      s1.constants.get v = none ∧ ScopeOk s1.stack ∧
+      ∀ (ts : List State) (s' : State),
+        Passes (BodyRunV img b v) (enterBody (P0 + 1 + 23 + 5)) (varPost (P0 + 1 + 23) v) s1 ts s' →
+        ts.length = passes ((if y < x then x - y else y - x) + 1) →
+        (∃ k, run img k s = exitLoop (P0 + (b.length + 39)) s') ∧
+        (exitLoop (P0 + (b.length + 39)) s').eval = s.eval ∧
+        (∃ vars' rest', s'.stack = .loop vars' s.eval.length :: rest') ∧
+        (∀ k (hk : k < ts.length),
+          ts[k].getVariable v = addN av (.int (if y < x then -1 else 1)) k) ∧
+        s'.getVariable v = addN av (.int (if y < x then -1 else 1)) ts.length := by
+  have hprelen : (indexVarRange v (.lit av) (.lit bv) true).length = 23 := by
+    rw [indexVarRange_lit_with]; rfl
+  have hlenAll : (unG (assembleLoop (indexVarRange v (.lit av) (.lit bv) true) counterTest []
+      (ins b) (loopPost (some v)))).length = b.length + 39 := by
+    rw [assembled_length, hprelen, loopPost_some_length]; omega
+  rw [assembled_counted] at hc hlenAll
+  obtain ⟨hL, hPre, _, _⟩ := loopCode_parts hc
+  have hiff : (y - x < 0) ↔ (y < x) := by grind
+  obtain ⟨k0, s1, vars, rest1, hrun, hr1, hpc1, hev1, hst1, hcnt, hinc, hgv, hcon1, hsc1⟩ :=
+    range_prologue img (afterLoop s) (P0 + 1) s.eval.length s.stack v av bv x y fx fy
+      (by exact hs) (by simp [afterLoop, hpc]) hPre rfl (by exact hconst) (ScopeOk.cons_loop hscope) hav hbv
+  have hneg : -(y - x) = x - y := by grind
+  simp only [hiff, hneg] at hcnt hinc
+  refine ⟨s1, vars, rest1, ⟨1 + k0, run_trans (run_loop_instr img s P0 hs hpc hL) hrun⟩, hr1, hst1, hgv,
+    by rw [hcon1]; exact hconst, hsc1, ?_⟩
+  intro ts s' hp hlen
+  have hd : Num (getLV vars .incr) ((if y < x then (-1 : Int) else 1 : Int) : Rat) false := by
+    rw [hinc]; exact Num.int _
+  have := var_loop_whole img P0 _ b v hc s s1 hs hpc ⟨k0, hrun⟩ hr1
+    (by rw [hpc1]; simp) hev1 vars rest1 _ _ _ _ x fx hst1 hcnt hd (by rw [hgv]; exact hav)
+    ts s' (by rw [hprelen]; exact hp) hlen
+  rw [hlenAll, hgv, hinc] at this
+  exact this
+
+
+theorem add_int_int (i j : Int) : Val.add (.int i) (.int j) = some (.int (i + j)) := by
+  have := (num_add (Num.int i) (Num.int j)).1
+  rw [this]
+  simp [Val.mkNum, ← Rat.intCast_add, Rat.num_intCast]
+
+/-- integers stay integers: `a`, then `a + d`, `a + 2d`, … -/
+theorem addN_int (a d : Int) (k : Nat) : addN (.int a) (.int d) k = .int (a + k * d) := by
+  induction k with
+  | zero => simp [addN]
+  | succ k ih =>
+    simp only [addN, ih, addVal, add_int_int, Option.getD_some]
+    congr 1
+    rw [Int.natCast_add, Int.add_mul]; omega
+
+theorem passes_abs_int (a b : Int) :
+    passes ((if (b : Rat) < (a : Rat) then (a : Rat) - b else (b : Rat) - a) + 1) = (b - a).natAbs + 1 := by
+  have hlt : ((b : Rat) < (a : Rat)) ↔ b < a := Rat.intCast_lt_intCast
+  by_cases h : b < a
+  · have : ((a : Rat) - (b : Rat)) + 1 = ((a - b + 1 : Int) : Rat) := by
+      rw [Rat.intCast_add, Rat.intCast_sub]; simp
+    rw [if_pos (hlt.2 h), this, passes_intCast]; omega
+  · have hn : ¬ ((b : Rat) < (a : Rat)) := fun h' => h (hlt.1 h')
+    have : ((b : Rat) - (a : Rat)) + 1 = ((b - a + 1 : Int) : Rat) := by
+      rw [Rat.intCast_add, Rat.intCast_sub]; simp
+    rw [if_neg hn, this, passes_intCast]; omega
+
+/-- **range_loop.**  `repeat with v from a to b` with integer literals `a`, `b` and a body that
+satisfies the contract from every state and does not assign `v`: the VM runs the body exactly
+`|b − a| + 1` times — `ts` are the states in which the passes start — and at the start of pass
+`k` (0-based) `v` denotes the integer `a + k` if `a ≤ b`, `a − k` otherwise; afterwards control
+is just past `END_LOOP`, the loop frame is popped and the evaluation stack is as before. -/
+theorem C04_range_loop (img : Image) (P0 : Nat) (b : List Instr) (v : String) (a c : Int)
+    (hc : CodeAt img P0 (unG (assembleLoop (indexVarRange v (.lit (.int a)) (.lit (.int c)) true)
+      counterTest [] (ins b) (loopPost (some v)))))
+    (s : State) (hs : s.status = .running) (hpc : s.pc = (P0 : Int))
+    (hconst : s.constants.get v = none) (hscope : ScopeOk s.stack) (hok : BodyOkV img b v) :
+    ∃ (ts : List State) (s' : State),
+      ts.length = (c - a).natAbs + 1 ∧
+      (∃ k, run img k s = exitLoop (P0 + (b.length + 39)) s') ∧
+      (exitLoop (P0 + (b.length + 39)) s').eval = s.eval ∧
+      (∃ vars' rest', s'.stack = .loop vars' s.eval.length :: rest') ∧
+      (∀ k (hk : k < ts.length),
+        ts[k].getVariable v = .int (if a ≤ c then a + k else a - k)) ∧
+      ∃ s1, Passes (BodyRunV img b v) (enterBody (P0 + 1 + 23 + 5)) (varPost (P0 + 1 + 23) v) s1 ts s' := by
+  obtain ⟨s1, vars, rest1, hk1, hr1, hst1, hgv, hcon1, hsc1, hall⟩ :=
+    C04_range_loop_chain img P0 b v (.int a) (.int c) a c false false (Num.int a) (Num.int c) hc s hs hpc
+      hconst hscope
+  have hB : CodeAt img (P0 + 1 + 23 + 5) b := by
+    rw [assembled_counted] at hc
+    obtain ⟨_, _, hT, _⟩ := loopCode_parts hc
+    have hprelen : (indexVarRange v (.lit (.int a)) (.lit (.int c)) true).length = 23 := by
+      rw [indexVarRange_lit_with]; rfl
+    rw [hprelen] at hT
+    exact (loopTail_parts hT).2.2.1
+  obtain ⟨ts, s', hp, hl⟩ := var_chain_exists img (P0 + 1 + 23) b v hB hok ((c - a).natAbs + 1) s1 vars
+    s.eval.length rest1 hr1 hst1 hcon1 hsc1
+  obtain ⟨hrun, hev, hfr, hvals, _⟩ := hall ts s' hp (by rw [hl, passes_abs_int])
+  refine ⟨ts, s', hl, hrun, hev, hfr, ?_, s1, hp⟩
+  intro k hk
+  rw [hvals k hk]
+  have hlt : ((c : Rat) < (a : Rat)) ↔ c < a := Rat.intCast_lt_intCast
+  by_cases h : c < a
+  · have : ¬ a ≤ c := by omega
+    rw [if_pos (hlt.2 h), if_neg this, addN_int]; congr 1; omega
+  · have hn : ¬ ((c : Rat) < (a : Rat)) := fun h' => h (hlt.1 h')
+    have : a ≤ c := by omega
+    rw [if_neg hn, if_pos this, addN_int]; congr 1; omega
+
+
 end Bardolph
